@@ -10,10 +10,10 @@ META = dict(
               "splitpath / joinpath, with the property's laws model-checked by TLC over complete bounded input spaces; "
               "TLC case tables replayed into the rebuilt Rust functions behind breezy.osutils; recorded results judged "
               "by the same TLA+ laws (dates: TLC supplies the input grid and judges the inverse law)",
-    level_text="Exhaustive per part: all sets of <= 3 (4 in thorough) paths out of the 40 paths of <= 3 segments over "
-               "{a, a-, b}, each probed with is_inside / is_inside_any against all 40 paths; all path strings of <= 5 (7) "
-               "characters over {a, ., /, \\}; all texts of <= 5 (6) bytes over {a, LF, CR} under all placements of <= 2 "
-               "(3) cuts incl. empty chunks; dates on a boundary grid of timestamps x microseconds x offsets (every "
+    level_text="Exhaustive per part: all sets of <= 4 paths out of the 15 paths of <= 3 segments over {a, a-} (thorough: "
+               "also all sets of <= 3 out of the 40 paths over {a, a-, b}), each probed with is_inside / is_inside_any "
+               "against the whole universe; all path strings of <= 5 (7) characters over {a, ., /, \\}; all texts of <= 5 "
+               "(6) bytes over {a, LF, CR} under all placements of <= 2 cuts incl. empty chunks; dates on a boundary grid of timestamps x microseconds x offsets (every "
                "whole-minute offset in thorough). The path and line functions are finite combinatorial functions, so "
                "small-scope exhaustion is the right level; for dates TLC is only the grid generator and judge.",
     level_note="Date formatting itself is not modelled (DESIGN §6): the law is the round trip observed at microsecond "
@@ -22,19 +22,22 @@ META = dict(
 )
 
 # "a-" sorts between "a" and "a/": the string-order hazard of a sort-based minimum_path_selection
-SEGS = {"quick": ["a", "a-"], "thorough": ["a", "a-", "b"]}
+# two universes for the "sel" laws: "sel" = 15 paths over {a, a-} with sets of <= 4, "selwide" (thorough only) = 40 paths
+# over {a, a-, b} with sets of <= 3; both are TLA+ Part "sel"
+SEGS = {"sel": ["a", "a-"], "selwide": ["a", "a-", "b"]}
+MAXSET = {"sel": 4, "selwide": 3}
 MAXDEPTH = 3
 BOUNDS = {
-    "quick": {"MaxSet": 4, "MaxPath": 5, "MaxText": 5, "MaxCuts": 2, "FullGrid": "FALSE"},
-    "thorough": {"MaxSet": 4, "MaxPath": 7, "MaxText": 6, "MaxCuts": 3, "FullGrid": "TRUE"},
+    "quick": {"MaxPath": 5, "MaxText": 5, "MaxCuts": 2, "FullGrid": "FALSE"},
+    "thorough": {"MaxPath": 7, "MaxText": 6, "MaxCuts": 2, "FullGrid": "TRUE"},
 }
-WITNESSES = {"sel": ("WitnessSelSibling", "WitnessSelRoot"),
+PARTS = {"quick": ("sel", "path", "text", "date"), "thorough": ("sel", "selwide", "path", "text", "date")}
+WITNESSES = {"sel": ("WitnessSelSibling", "WitnessSelRoot"), "selwide": ("WitnessSelSibling", "WitnessSelRoot"),
              "path": ("WitnessPathDot", "WitnessPathDotDot", "WitnessPathNorm"),
              "text": ("WitnessTextCrLf", "WitnessTextEmpty"),
              "date": ("WitnessDateHalf", "WitnessDateNeg")}
 BYTE = {"a": b"a", "LF": b"\n", "CR": b"\r"}
 NAME = {97: "a", 10: "LF", 13: "CR"}
-_UNIVERSE = None
 _TOTAL = {}
 
 
@@ -46,24 +49,30 @@ def _psegs(s):
     return s.split("/") if s else []
 
 
-def _sel_consts(tier):
-    return {"Segs": "{%s}" % ", ".join('"%s"' % s for s in SEGS[tier]), "MaxDepth": MAXDEPTH}
+def _tla_part(part):
+    return "sel" if part == "selwide" else part
 
 
-def _universe(tier):
+def _base_consts(part):
+    """Constants of OsUtils (Gen and Trace): the TLA+ Part and the universe of the "sel" laws."""
+    segs = SEGS.get(part, SEGS["sel"])
+    return {"Part": '"%s"' % _tla_part(part), "Segs": "{%s}" % ", ".join('"%s"' % s for s in segs), "MaxDepth": MAXDEPTH}
+
+
+def _universe(part):
     import itertools
-    return [list(t) for k in range(MAXDEPTH + 1) for t in itertools.product(SEGS[tier], repeat=k)]
+    return [list(t) for k in range(MAXDEPTH + 1) for t in itertools.product(SEGS[part], repeat=k)]
 
 
 # ---------------------------------------------------------------- one real execution per case
-def _run_sel(ctx, c):
+def _run_sel(ctx, c, universe):
     from breezy import osutils
     paths = [_pstr(p) for p in c["paths"]]
     sel = osutils.minimum_path_selection(list(paths))
     shuffled = list(paths)
     ctx.rng.shuffle(shuffled)
     any_, each = [], []
-    for p in _UNIVERSE:
+    for p in universe:
         ps = _pstr(p)
         if osutils.is_inside_any(shuffled, ps):
             any_.append(p)
@@ -128,6 +137,7 @@ def _run_date(ctx, c, row):
 
 
 def _signature(part, law, c):
+    part = _tla_part(part)
     if part == "date":
         if c["off"] < 0 and c["off"] % 60:
             cls = "format_highres_date:negative-non-whole-hour-offset"
@@ -144,7 +154,7 @@ def _signature(part, law, c):
 
 
 def _show(part, c):
-    if part == "sel":
+    if part in SEGS:
         return "paths %r" % [_pstr(p) for p in c["paths"]]
     if part == "path":
         return "path %r" % "".join(c["p"])
@@ -155,7 +165,7 @@ def _show(part, c):
 
 def _compact(part, row):
     o = row["impl"]
-    if part == "sel":
+    if part in SEGS:
         return {k: [_pstr(p) for p in o[k]] for k in ("sel", "any", "each")}
     if part == "path":
         return {"st": o["st"], "split": ["".join(x) for x in o["split"]], "joined": "".join(o["joined"])}
@@ -166,12 +176,13 @@ def _compact(part, row):
 
 def _replay(ctx, items):
     part = items[0][0]
+    universe = _universe(part) if part in SEGS else None
     rows = []
     for _, k in items:
         c = k["c"]
         row = {"c": c}
-        if part == "sel":
-            row["impl"] = _run_sel(ctx, c)
+        if part in SEGS:
+            row["impl"] = _run_sel(ctx, c, universe)
         elif part == "path":
             row["impl"] = _run_path(ctx, c)
         elif part == "text":
@@ -180,8 +191,7 @@ def _replay(ctx, items):
             row["impl"] = _run_date(ctx, c, row)
         rows.append(row)
         ctx.count(1)
-    consts = dict(_sel_consts(ctx.tier), Part='"%s"' % part)
-    for row, failed, drift in table.judge(ctx, "OsUtilsTrace", rows, constants=consts, workers=2):
+    for row, failed, drift in table.judge(ctx, "OsUtilsTrace", rows, constants=_base_consts(part), workers=2):
         c = row["c"]
         for law in failed:
             ctx.violation(_signature(part, law, c), "law %s fails on %s: real result %r %s" % (
@@ -194,7 +204,7 @@ def _replay(ctx, items):
 
 
 def _generate(ctx, part):
-    consts = dict(_sel_consts(ctx.tier), Part='"%s"' % part, **BOUNDS[ctx.tier])
+    consts = dict(_base_consts(part), MaxSet=MAXSET.get(part, 1), **BOUNDS[ctx.tier])
     cases, _ = table_common.generate(ctx, "OsUtilsGen", consts, witnesses=WITNESSES[part], label="OsUtilsGen " + part,
                                      workers=2 if ctx.quick else 8)
     _TOTAL[part] = len(cases)
@@ -210,25 +220,23 @@ def _whole_part(ctx, parts):
 def run(ctx):
     env.init()
     table_common.narrow_jvm()
-    global _UNIVERSE
-    _UNIVERSE = _universe(ctx.tier)
     b = BOUNDS[ctx.tier]
-    parts = ("sel", "path", "text", "date")
+    parts = PARTS[ctx.tier]
     if ctx.quick:
         core.fork_map(ctx, _whole_part, parts, nproc=4, chunks_per_proc=1)
     else:
-        nproc = {"sel": 16, "path": 2, "text": 8, "date": 12}
+        nproc = {"sel": 4, "selwide": 16, "path": 2, "text": 8, "date": 16}
         for part in parts:
             # the chunks of one part are judged by one Trace configuration: keep parts in separate fork_maps
             core.fork_map(ctx, _replay, _generate(ctx, part), nproc=nproc[part], chunks_per_proc=1)
-    ctx.rule("sel: every set of <= %d paths out of the %d paths of <= %d segments over {%s} (incl. the root), each probed "
-             "against all of them; path: every string of <= %d chars over {a, ., /, \\}; text: every text of <= %d bytes "
-             "over {a, LF, CR} x every non-decreasing placement of <= %d cuts (empty chunks included); date: 19 boundary "
-             "timestamps (both signs) x microsecond values x whole-minute offsets (full grid: %s). All enumerated by TLC. "
-             "Non-trivial = selection drops some but not all paths / path with a separator or dot / text with LF and at "
-             "least one cut / date with odd offset, fraction or sign" % (
-                 b["MaxSet"], len(_UNIVERSE), MAXDEPTH, ", ".join(SEGS[ctx.tier]), b["MaxPath"], b["MaxText"],
-                 b["MaxCuts"], b["FullGrid"]))
+    sel = "; ".join("every set of <= %d paths out of the %d paths of <= %d segments over {%s} (incl. the root)" % (
+        MAXSET[p], len(_universe(p)), MAXDEPTH, ", ".join(SEGS[p])) for p in parts if p in SEGS)
+    ctx.rule("sel: %s, each set probed with is_inside / is_inside_any against its whole universe; path: every string of "
+             "<= %d chars over {a, ., /, \\}; text: every text of <= %d bytes over {a, LF, CR} x every non-decreasing "
+             "placement of <= %d cuts (empty chunks included); date: 19 boundary timestamps (both signs) x microsecond "
+             "values x whole-minute offsets (full grid: %s). All enumerated by TLC. Non-trivial = selection drops some but "
+             "not all paths / path with a separator or dot / text with LF and at least one cut / date with odd offset, "
+             "fraction or sign" % (sel, b["MaxPath"], b["MaxText"], b["MaxCuts"], b["FullGrid"]))
     ctx.cov["exhaustive"] = True
     ctx.assume("timestamps are compared at microsecond resolution; |t| < 2^33 s so that a double carries microseconds")
     ctx.assume("path segments are opaque to the containment functions apart from the separator")
